@@ -444,6 +444,23 @@ def check_readers(c, repo):
             nxt = [m for m in returns(f) if n in [p for p, l in m.pred]]
             c.check(bool(nxt) and all(norm(m.ast.value) == 'self.before' for m in nxt), f, k,
                     'read(-1) returns before', tag='readall-ret')
+    # size conventions: 0 -> empty string without touching the stream; negative -> everything up to the delimiter
+    for name in ('read', 'readline'):
+        f = repo.func('spawnbase:SpawnBase.' + name)
+        g = f.cfg
+        sz = f.params[1]
+        t0 = [t for t in g.nodes if t.kind == 'test' and norm(t.ast) == '%s == 0' % sz]
+        r0 = [r for t in t0 for r in guard_region(g, t, 'true') if r.kind == 'stmt' and isinstance(r.ast, ast.Return) and norm(r.ast.value) == 'self.string_type()']
+        exs = [n for n, k in cfg_nodes_with_call(f, lambda k: callee_last(k) == 'expect')]
+        ok = len(t0) == 1 and len(r0) == 1 and all(n not in guard_region(g, t0[0], 'true') for n in exs) and all(g.dominated_by(n, {t0[0]})[0] for n in exs)
+        c.check(ok, f, t0[0].ast if t0 else None, '%s(0) returns an empty string of the API type without consuming anything; any other size goes on' % name,
+                witness=norm(t0[0].ast) if t0 else 'test missing', tag=name + '-size0')
+    f = repo.func('spawnbase:SpawnBase.read')
+    g = f.cfg
+    tn = [t for t in g.nodes if t.kind == 'test' and norm(t.ast) == '%s < 0' % f.params[1]]
+    allk = [n for n, k in cfg_nodes_with_call(f, lambda k: callee_last(k) == 'expect' and k.args and norm(k.args[0]) == 'self.delimiter')]
+    ok = len(tn) == 1 and len(allk) == 1 and allk[0] in guard_region(g, tn[0], 'true')
+    c.check(ok, f, tn[0].ast if tn else None, 'read(size < 0) reads everything up to the delimiter; size > 0 uses the .{size} pattern', witness=norm(tn[0].ast) if tn else 'test missing', tag='read-negative')
     # readlines
     f = repo.func('spawnbase:SpawnBase.readlines')
     g = f.cfg
@@ -458,6 +475,20 @@ def check_readers(c, repo):
             witness='path: ' + g.describe_path(p) if p else None, tag='readlines-append')
     ok2, p2 = g.must_pass(apps[0], {apps[0]}, {ln}, skip_labels=('exc',))
     c.check(ok2, f, apps[0].ast, 'no line is appended twice', tag='readlines-once')
+    # the loop ends exactly when readline() returns an empty string (EOF): break on the falsy edge only
+    tl = [t for t in g.nodes if t.kind == 'test' and norm(t.ast) in ('not %s' % var, var, "%s == ''" % var, 'len(%s) == 0' % var)]
+    okb = False
+    if len(tl) == 1:
+        edge = 'false' if norm(tl[0].ast) == var else 'true'
+        nx = [s2 for s2, l2 in tl[0].succ if l2 == edge]
+        other = [s2 for s2, l2 in tl[0].succ if l2 != edge]
+        okb = len(nx) == 1 and nx[0].kind == 'stmt' and isinstance(nx[0].ast, ast.Break) and all(o in apps for o in other)
+    c.check(okb, f, tl[0].ast if tl else None, 'readlines stops exactly when a line is empty (EOF) and appends every other line', witness=norm(tl[0].ast) if tl else 'test missing', tag='readlines-stop')
+    rr = [r for r in returns(f)]
+    inits = [n for n in g.nodes if n.kind == 'stmt' and isinstance(n.ast, ast.Assign) and norm(n.ast.value) == '[]']
+    okr = len(rr) == 1 and len(inits) == 1 and is_name(rr[0].ast.value, inits[0].ast.targets[0].id) and \
+        all(is_name(k.func.value, inits[0].ast.targets[0].id) for n, k in cfg_nodes_with_call(f, lambda k: callee_last(k) == 'append'))
+    c.check(okr, f, rr[0].ast if rr else None, 'the list that collected the lines is what is returned', tag='readlines-return')
 
 
 # ----------------------------------------------------------------------------
@@ -480,12 +511,16 @@ MUTANTS = [
     ('incoming-dropped-when-short', 'expect', "                idx = self.new_data(incoming)\n", "                if len(incoming) > 1:\n                    idx = self.new_data(incoming)\n", 'D5'),
     ('async-done-drops-buffer', '_async_w_await', "            spawn._before.write(s)\n            spawn._buffer.write(s)\n", "            spawn._before.write(s)\n", 'D1'),
     ('async-done-drops-all', '_async_w_await', "            spawn._before.write(s)\n            spawn._buffer.write(s)\n            return", "            return", 'D4'),
+    ('setter-appends-before', 'spawnbase', "        self._before = self.buffer_type()\n        self._before.write(value)\n", "        self._before.write(value)\n", 'D8'),
     ('setter-aliases-stores', 'spawnbase', "        self._buffer = self.buffer_type()\n        self._buffer.write(value)\n        self._before = self.buffer_type()\n        self._before.write(value)\n", "        self._buffer = self._before = self.buffer_type()\n        self._buffer.write(value)\n", 'D1'),
     ('eof-aliases-stores', 'expect', "        spawn._buffer = spawn.buffer_type()\n        spawn._before = spawn.buffer_type()\n        spawn.after = EOF", "        spawn._buffer = spawn.buffer_type()\n        spawn._before = spawn._buffer\n        spawn.after = EOF", 'D1'),
     ('readline-drops-crlf', 'spawnbase', "            return self.before + self.crlf", "            return self.before", 'D10'),
     ('read-returns-before', 'spawnbase', "            return self.after\n", "            return self.before\n", 'D10'),
     ('window-not-suffix', 'expect', "                window = data[-self.searchwindowsize:]\n", "                window = data[:self.searchwindowsize]\n", 'D1'),
     ('rebuild-from-buffer', 'expect', "                window = spawn._before.getvalue()\n                spawn._buffer.write(window)", "                window = spawn._before.getvalue()\n                spawn._buffer.write(window[:-1])", 'D1'),
+    ('readlines-stop-inverted', 'spawnbase', "            if not line:\n                break", "            if line:\n                break", 'D10'),
+    ('read-size0-inverted', 'spawnbase', "        if size == 0:\n            return self.string_type()\n        if size < 0:", "        if size != 0:\n            return self.string_type()\n        if size < 0:", 'D10'),
+    ('read-le0', 'spawnbase', "        if size < 0:\n            # delimiter default is EOF", "        if size <= 1:\n            # delimiter default is EOF", 'D10'),
     ('readlines-skip', 'spawnbase', "            lines.append(line)\n", "            if len(line) > 2:\n                lines.append(line)\n", 'D10'),
     ('before-after-reset', 'expect', "            before = spawn._before.getvalue()\n            spawn.before = before[\n                0:len(before) - (len(window) - searcher.start)]\n            spawn._before = spawn.buffer_type()\n            spawn._before.write(window[searcher.end:])\n",
      "            spawn._before = spawn.buffer_type()\n            spawn._before.write(window[searcher.end:])\n            before = spawn._before.getvalue()\n            spawn.before = before[\n                0:len(before) - (len(window) - searcher.start)]\n", 'D6'),
